@@ -244,20 +244,20 @@ Fixpoint track_from (chk : bool) (extra : list Z -> ospec -> Z -> list Z -> list
       | None, 7%Z =>
           (* first dump of the fresh sketch: learn theta0 (must be 2^63-1 when p = 1.0), n = 0 *)
           let th := zget ob 0 in
-          (negb chk || (((negb (nth 2 cfg 0%Z =? ONE_BITS)%Z) || (th =? MAXT)) && (zget ob 1 =? 0)))
+          (7 <=? length ob)%nat && (negb chk || (((negb (nth 2 cfg 0%Z =? ONE_BITS)%Z) || (th =? MAXT)) && (zget ob 1 =? 0)))
           && track_from chk extra cfg (mkO (Some th) th hs_empty 0 hs_empty 0 false) r obr
-      | None, _ => true       (* the generator always starts with a dump *)
+      | None, _ => false      (* every case must start with a dump of the fresh sketch (op 7) *)
       | Some th0, 1%Z | Some th0, 2%Z | Some th0, 3%Z =>
           let h := match code with 1%Z => zN (nth 1 a 0%Z) / 2 | 2%Z => zN (nth 0 a 0%Z) | _ => zN (nth 2 a 0%Z) / 2 end in
           (* the hash is screened against the theta in force BEFORE the update *)
           let '(ok, st') := after_change lgk (offer st h) ob in
-          (negb chk || ok) && track_from chk extra cfg st' r obr
+          Nat.eqb (length ob) 3 && (negb chk || ok) && track_from chk extra cfg st' r obr
       | Some th0, 4%Z =>
           let k := 2 ^ lgk in
           let '(ok, st') := after_change lgk st ob in
-          (negb chk || (ok && (zget ob 0 =? N.min (o_cnt st) k))) && track_from chk extra cfg st' r obr
+          Nat.eqb (length ob) 3 && (negb chk || (ok && (zget ob 0 =? N.min (o_cnt st) k))) && track_from chk extra cfg st' r obr
       | Some th0, 5%Z =>
-          (negb chk || ((zget ob 0 =? 0) && (zget ob 1 =? th0)))
+          Nat.eqb (length ob) 3 && (negb chk || ((zget ob 0 =? 0) && (zget ob 1 =? th0)))
           && track_from chk extra cfg (mkO (Some th0) th0 hs_empty 0 hs_empty 0 false) r obr
       | Some th0, 6%Z =>
           let ordered_arg := negb (nth 0 a 0 =? 0)%Z in
@@ -265,7 +265,7 @@ Fixpoint track_from (chk : bool) (extra : list Z -> ospec -> Z -> list Z -> list
           let th := zget ob 2 in let n := zget ob 8 in
           let es := map zN (skipn 9 ob) in
           let want := sortN (hs_elems (o_set st)) in
-          (negb chk ||
+          (9 <=? length ob)%nat && (negb chk ||
            ((n =? o_cnt st) && (N.of_nat (length es) =? n)
             && list_eqb N.eqb (if ordered then es else sortN es) want
             && (negb ordered || strictly_sorted es)
@@ -279,7 +279,7 @@ Fixpoint track_from (chk : bool) (extra : list Z -> ospec -> Z -> list Z -> list
           && track_from chk extra cfg st r obr
       | Some th0, 7%Z =>
           let th := zget ob 0 in let n := zget ob 1 in
-          (negb chk ||
+          (7 <=? length ob)%nat && (negb chk ||
            ((th =? o_theta st) && (n =? o_cnt st)
             && list_eqb N.eqb (map zN (skipn 7 ob)) (sortN (hs_elems (o_set st)))
             && Bool.eqb (negb (nth 4 ob 0 =? 0)%Z) (th <? MAXT)
@@ -290,7 +290,8 @@ Fixpoint track_from (chk : bool) (extra : list Z -> ospec -> Z -> list Z -> list
           && track_from chk extra cfg st r obr
       | Some _, _ => extra cfg st code a ob && track_from chk extra cfg st r obr
       end
-  | _, _ => true
+  | [], _ :: _ => false        (* more observations than operations *)
+  | _, [] => true              (* operations after a panic are dropped by the harness *)
   end.
 
 Definition kmv_ok (c : case) : bool :=
@@ -366,7 +367,8 @@ Fixpoint rt_from (ops : list zop) (obs : list (list Z)) : bool :=
          | [] => false
          end
        else true) && rt_from r obr
-  | _, _ => true
+  | [], _ :: _ => false
+  | _, [] => true
   end.
 Definition roundtrip_ok (c : case) : bool := rt_from (c_ops c) (c_obs c).
 
@@ -374,7 +376,7 @@ Definition roundtrip_ok (c : case) : bool := rt_from (c_ops c) (c_obs c).
    state is a theta sketch, the seed hash is the reader's) MUST be accepted and read back to
    exactly that state; then re-serialized (op 13) it must decode to the same state again ---- *)
 Definition dump_matches (d : tabs) (ob : list Z) : bool :=
-  (nth 0 ob 0 =? 1)%Z
+  (7 <=? length ob)%nat && (nth 0 ob 0 =? 1)%Z
   && Bool.eqb (negb (nth 1 ob 0 =? 0)%Z) (a_empty d)
   && ((N.of_nat (length (a_entries d)) <? 2) || Bool.eqb (negb (nth 2 ob 0 =? 0)%Z) (a_ordered d))
   && (zget ob 3 =? a_theta d) && (zget ob 4 =? a_seed_hash d)
@@ -406,22 +408,27 @@ Fixpoint foreign_from (sh : N) (cur : option tabs) (ops : list zop) (obs : list 
          end) && foreign_from sh cur r obr
       else if (code =? 14)%Z then foreign_from sh None r obr
       else foreign_from sh cur r obr
-  | _, _ => true
+  | [], _ :: _ => false
+  | _, [] => true
   end.
 Definition foreign_ok (c : case) : bool := foreign_from (zN (nth 4 (c_cfg c) 0%Z)) None (c_ops c) (c_obs c).
 
 (* ---- C14: no panic, no runaway allocation; whatever deserialize returns as Ok is a theta sketch
-   (entries in (0, theta), theta in [1, 2^63-1], ascending when it says ordered) ---- *)
+   (entries in (0, theta), theta in [1, 2^63-1], ascending when it says ordered, flagged empty only
+   without entries and with theta = 2^63-1); and forked through either writer (op 15) it comes back
+   unchanged (judged by roundtrip_ok, listed in the C14 leg as well) ---- *)
 Definition ok_dump_wf (ob : list Z) : bool :=
   let th := zget ob 3 in let es := map zN (skipn 7 ob) in
-  (0 <? th) && (th <=? MAXT) && forallb (fun h => (0 <? h) && (h <? th)) es
-  && ((nth 2 ob 0 =? 0)%Z || strictly_sorted es) && (zget ob 6 =? N.of_nat (length es)).
+  (7 <=? length ob)%nat && (0 <? th) && (th <=? MAXT) && forallb (fun h => (0 <? h) && (h <? th)) es
+  && ((nth 2 ob 0 =? 0)%Z || strictly_sorted es) && (zget ob 6 =? N.of_nat (length es))
+  && ((nth 1 ob 0 =? 0)%Z || ((zget ob 6 =? 0) && (th =? MAXT))).      (* empty => no entries, theta = 2^63-1 *)
 
 Fixpoint wf_from (ops : list zop) (obs : list (list Z)) : bool :=
   match ops, obs with
   | (code, a) :: r, ob :: obr =>
       (if (code =? 12)%Z && (nth 0 ob 0 =? 1)%Z then ok_dump_wf ob else true) && wf_from r obr
-  | _, _ => true
+  | [], _ :: _ => false
+  | _, [] => true
   end.
 Definition no_panic (c : case) : bool := no_panic_oracle c && wf_from (c_ops c) (c_obs c).
 
@@ -457,7 +464,8 @@ Fixpoint layout_from (ops : list zop) (obs : list (list Z)) : bool :=
       (if (code =? 8)%Z && negb (list_eqb Z.eqb ob PANIC)
        then layout_check (zget ob 0) (map zN (skipn 1 ob)) else true)
       && layout_from r obr
-  | _, _ => true
+  | [], _ :: _ => false
+  | _, [] => true
   end.
 
 Definition layout_ok (c : case) : bool := layout_from (c_ops c) (c_obs c).
